@@ -113,12 +113,18 @@ func (m *Monitors) report(prop string, sig map[string]string, detail string) {
 // vote of (h,r,typ) for block name b.
 func (m *Monitors) sumFor(n int, k voteKey, b string) int64 {
 	var s int64
+	pw, _ := m.nt.powersAt(k.h)
 	for val, blocks := range m.got[n][k] {
 		if blocks[b] {
-			s += m.power[val]
+			s += pw[val]
 		}
 	}
 	return s
+}
+
+func (m *Monitors) totalAt(h int64) int64 {
+	_, t := m.nt.powersAt(h)
+	return t
 }
 
 // polkaOther: has node n received, in round r, more than 2/3 prevotes for one
@@ -132,7 +138,7 @@ func (m *Monitors) polkaOther(n int, h, r int64, x string) bool {
 		}
 	}
 	for b := range names {
-		if b != x && m.sumFor(n, k, b)*3 > m.total*2 {
+		if b != x && m.sumFor(n, k, b)*3 > m.totalAt(h)*2 {
 			return true
 		}
 	}
@@ -210,9 +216,9 @@ func (m *Monitors) onEmit(n *Node, e *Emitted) {
 	case "precommit":
 		if e.Block != "" {
 			k := voteKey{e.Height, e.Round, "prevote"}
-			if s := m.sumFor(i, k, e.Block); !(s*3 > m.total*2) {
+			if s := m.sumFor(i, k, e.Block); !(s*3 > m.totalAt(e.Height)*2) {
 				m.report("C04", map[string]string{"rule": "precommit-without-polka", "site": "enterPrecommit"},
-					fmt.Sprintf("node %d precommits %s in round %d of height %d having received prevotes for it from only %d of %d voting power in that round", i, e.Block, e.Round, e.Height, s, m.total))
+					fmt.Sprintf("node %d precommits %s in round %d of height %d having received prevotes for it from only %d of %d voting power in that round", i, e.Block, e.Round, e.Height, s, m.totalAt(e.Height)))
 			}
 			if e.Round >= m.lockRound[i] {
 				m.lockRound[i], m.lockBlock[i] = e.Round, e.Block
@@ -358,7 +364,7 @@ func (m *Monitors) checkStore(n *Node) {
 		// C04 commit rule: > 2/3 precommits for this block in one round received by n
 		ok := false
 		for r := int64(0); r <= m.maxRound+1; r++ {
-			if s := m.sumFor(n.Idx, voteKey{h, r, "precommit"}, name); s*3 > m.total*2 {
+			if s := m.sumFor(n.Idx, voteKey{h, r, "precommit"}, name); s*3 > m.totalAt(h)*2 {
 				ok = true
 			}
 		}
